@@ -266,8 +266,9 @@ def struct_to_tree(s):
     raise ValueError(k)
 
 
-def exec_row(pre, L, S, x, rng, bare=False, args_n=2):
-    """one check in a fresh context; returns (pre_observed, res, post, prefail)"""
+def exec_row(pre, L, S, x, rng, bare=False, args_n=2, mid=None):
+    """one check in a fresh context; returns (pre_observed, res, post, prefail); mid(hint): unrelated activity performed
+    between the observation of the pre-state and the check"""
     from . import render as R
     h = {}
     hint = render_hint(L, S, bare)
@@ -276,6 +277,8 @@ def exec_row(pre, L, S, x, rng, bare=False, args_n=2):
     def body():
         h["est"] = establish(pre)
         h["pre"] = observe_pmemo()
+        if mid is not None:
+            mid(hint)
         h["res"] = R.verdict(lambda: isinstance(tree, hint))
         h["post"] = observe_pmemo()
         h["flags"] = R.flags()
